@@ -66,16 +66,12 @@ class Config(CIBaseModel):
 
     @model_validator(mode='after')
     def normalize_search_paths(self):
-        """Resolve search paths and initialize the global configuration
-        singleton."""
+        """Resolve search paths (refusing early if a configuration is already
+        active)."""
 
-        global _config
         if _config is not None:
             raise RuntimeError('Config has already been initialized.')
-        try:
-            self._normalize_path()
-        finally:
-            _config = self
+        self._normalize_path()
 
         return self
 
@@ -99,6 +95,18 @@ class Config(CIBaseModel):
                 'weather_data_dir',
                 Path(self.file_location(self.weather.weather_data_dir)).resolve(),
             )
+        return self
+
+    @model_validator(mode='after')
+    def register_singleton(self):
+        """Register the global configuration singleton. This runs after all
+        other validators so that a load that fails leaves no configuration
+        set."""
+
+        global _config
+        if _config is not None:
+            raise RuntimeError('Config has already been initialized.')
+        _config = self
         return self
 
     def file_location(self, f: Path | str) -> Path:
